@@ -35,7 +35,7 @@ pub const INFO: Info = Info {
            (^A + A with the same mass, a mass listed twice), variable + static on the same residue, both termini \
            of a length-1 peptide, overlapping static mods, zero masses; exhaustive small scope: all sequences over \
            {A,K} up to length 2 (4 thorough) x 4 positions x 12 variable sets x 6 static sets x max 1..2 (1..3). \
-           dbforms: the same peptides through Parameters::digest with mass bounds placed on / one ulp around the \
+           long peptides (default on): 60..140 residues and some 255..300, at most 6 candidate sites placed 64/128 apart, at residue 62/63 together with a terminal key, straddling index 64, or sparse at random, max 2..3, through apply and dbforms. dbforms: the same peptides through Parameters::digest with mass bounds placed on / one ulp around the \
            masses of generated forms. non-trivial = at least one modified form generated (apply), bound cuts the \
            form list (dbforms); distinct by request line",
     serial: false,
@@ -442,6 +442,8 @@ fn emit_apply(emit: &mut dyn FnMut(Case), tag: &'static str, pos: usize, seq: &s
         .tag(tag)
         .tag_if(!valid_seq, "apply:invalid-sequence")
         .tag_if(seq.is_empty(), "apply:empty-sequence")
+        .tag_if(seq.len() >= 60, "apply:len>=60")
+        .tag_if(seq.len() >= 255, "apply:len>=255")
         .tag_if(sh.dup_cands, "apply:duplicate-candidates")
         .tag_if(sh.static_overlap, "apply:static-overlap")
         .tag_if(sh.var_static_same_site, "apply:var+static-same-site")
@@ -564,6 +566,8 @@ fn gen_small_scope(tier: Tier, emit: &mut dyn FnMut(Case)) {
         vm(&[("^A", &[1.0]), ("A", &[1.0])]),
         vm(&[("^K", &[1.0]), ("[K", &[2.0]), ("$K", &[4.0]), ("]K", &[8.0])]),
         vm(&[("A", &[1.0]), ("[", &[4.0]), ("]A", &[2.0])]),
+        vm(&[("A", &[1.0]), ("K", &[2.0]), ("C", &[4.0])]),
+        vm(&[("C", &[1.0, 2.0]), ("^C", &[4.0]), ("K", &[8.0])]),
     ];
     let static_sets: Vec<StaticMods> = vec![
         sm(&[]),
@@ -572,13 +576,14 @@ fn gen_small_scope(tier: Tier, emit: &mut dyn FnMut(Case)) {
         sm(&[("[", 32.0), ("]", 64.0)]),
         sm(&[("^A", 16.0), ("$K", 32.0)]),
         sm(&[("A", 1.0), ("$", 64.0), ("[K", 32.0)]),
+        sm(&[("C", 57.0)]),
     ];
     let mut seqs: Vec<String> = vec![String::new()];
     let mut frontier = seqs.clone();
     for _ in 0..maxlen {
         let mut next = Vec::new();
         for s in &frontier {
-            for c in ['A', 'K'] {
+            for c in ['A', 'K', 'C'] {
                 let mut s2 = s.clone();
                 s2.push(c);
                 next.push(s2);
@@ -586,6 +591,12 @@ fn gen_small_scope(tier: Tier, emit: &mut dyn FnMut(Case)) {
         }
         seqs.extend(next.iter().cloned());
         frontier = next;
+    }
+    if tier == Tier::Quick {
+        // three distinct modifiable residues together: every arrangement of A, K, C
+        for p in ["AKC", "ACK", "KAC", "KCA", "CAK", "CKA"] {
+            seqs.push(p.to_string());
+        }
     }
     for seq in &seqs {
         for pos in 0..4 {
@@ -643,37 +654,186 @@ fn gen_db(rng: &mut Rng, tier: Tier, emit: &mut dyn FnMut(Case)) {
         let max = *rng.pick(&[0usize, 1, 2, 2, 3]);
         let vars = rand_vars(rng, &seq, 3);
         let statics = rand_statics(rng, &seq, 2);
-        let sh = shape(2, &seq, &vars, &statics);
-        if sh.static_overlap || binom_sum(sh.cands, max.max(1)) > 300 {
-            continue;
+        if emit_db(rng, emit, "", &seq, max, &vars, &statics) {
+            done += 1;
         }
-        // duplicate keys cannot reach Parameters (they are HashMap keys): rand_vars/rand_statics never repeat one
-        let masses: Vec<f32> = match run_apply(Position::Full, &seq, max.max(1), &vars, &statics) {
-            Ok((_, forms)) => forms.iter().map(|p| p.monoisotopic).collect(),
-            Err(()) => vec![],
-        };
-        let pickm = |rng: &mut Rng| -> f32 {
-            if masses.is_empty() { 500.0 } else { *rng.pick(&masses) }
-        };
-        let (lo, hi, tag): (f32, f32, &'static str) = match rng.below(8) {
-            0 => (0.0, 1.0e6, "db:range-all"),
-            1 => { let m = pickm(rng); (m, 1.0e6, "db:lo=form-mass") }
-            2 => { let m = pickm(rng); (next_up(m), 1.0e6, "db:lo=form-mass+1ulp") }
-            3 => { let m = pickm(rng); (0.0, m, "db:hi=form-mass") }
-            4 => { let m = pickm(rng); (0.0, next_down(m), "db:hi=form-mass-1ulp") }
-            5 => { let a = pickm(rng); let b = pickm(rng); (a.min(b), a.max(b), "db:lo,hi=form-masses") }
-            6 => { let m = pickm(rng); (m, m, "db:lo=hi=form-mass") }
-            _ => { let m = pickm(rng); (m - 10.0, m + 10.0, "db:window") }
-        };
-        let inside = masses.iter().filter(|m| **m >= lo && **m <= hi).count();
-        emit(Case::new(req_db(&seq, max, lo, hi, &vars, &statics))
-            .tag(tag)
-            .tag_if(sh.dup_cands, "db:duplicate-candidates")
-            .tag_if(inside == 0, "db:nothing-in-range")
-            .tag_if(inside == masses.len() && inside > 0, "db:everything-in-range")
-            .nontrivial(inside > 0 && inside < masses.len()));
-        done += 1;
     }
+}
+
+/// one long peptide: modifiable residues only at `idx` (letter `letters[j]` at `idx[j]`), background of
+/// letters that no key addresses
+fn long_seq(rng: &mut Rng, len: usize, idx: &[usize], letters: &[u8]) -> String {
+    let bg: &[u8] = if rng.chance(1, 2) { b"G" } else { b"GAVLS" };
+    let mut v: Vec<u8> = (0..len).map(|_| *rng.pick(bg)).collect();
+    for (j, &i) in idx.iter().enumerate() {
+        v[i] = letters[j % letters.len()];
+    }
+    String::from_utf8(v).unwrap()
+}
+
+struct LongCase {
+    pos: usize,
+    seq: String,
+    max: usize,
+    vars: VarMods,
+    statics: StaticMods,
+}
+
+/// Long peptides (60..140 residues, a few 255..300) with at most 6 candidate sites, placed so that
+/// pairs of sites are 64 / 128 apart, or sit at residue 62 / 63 together with a terminal modification,
+/// or straddle index 64 -- any per-combination site bookkeeping narrower than the peptide (a machine-word
+/// bitmask, a u8 index, a fixed array) drops or merges such placements. max_variable_mods 2..3.
+fn long_case(rng: &mut Rng, pattern: usize) -> LongCase {
+    let mods: &[u8] = b"MKC";
+    let nletters = 1 + rng.below(3);
+    let letters: Vec<u8> = {
+        let mut l = mods.to_vec();
+        rng.shuffle(&mut l);
+        l.truncate(nletters);
+        l
+    };
+    let huge = rng.chance(1, 8);
+    let mut len = if huge { 255 + rng.below(46) } else { 60 + rng.below(81) };
+    let mut term: Option<&'static str> = None;
+    let mut idx: Vec<usize> = match pattern % 10 {
+        0 => vec![0, 64],
+        1 => vec![1, 65],
+        2 => vec![63, 127],
+        3 => { term = Some(*rng.pick(&["^", "["])); vec![62] }
+        4 => { term = Some(*rng.pick(&["$", "]"])); vec![63] }
+        5 => { let i = rng.below(60); vec![i, i + 64] }
+        6 => { let i = rng.below(40); vec![i, i + 64, i + 128] }
+        7 => { term = Some(*rng.pick(&["^", "$", "[", "]"])); vec![61, 62, 63, 64] }
+        8 => { let i = rng.below(30); vec![i, i + 32, i + 64, i + 96] }
+        _ => vec![],
+    };
+    let need = idx.iter().max().map(|m| m + 1 + rng.below(12)).unwrap_or(0);
+    if len < need {
+        len = need;
+    }
+    // random sparse extra sites, up to 6 residue sites / 5 with a terminal one
+    let cap = if term.is_some() { 5 } else { 6 };
+    let extra = if idx.is_empty() { 2 + rng.below(4) } else { rng.below(cap + 1 - idx.len().min(cap)) };
+    for _ in 0..extra {
+        if idx.len() >= cap {
+            break;
+        }
+        let i = rng.below(len);
+        if !idx.contains(&i) {
+            idx.push(i);
+        }
+    }
+    if term.is_none() && idx.len() < cap && rng.chance(1, 4) {
+        term = Some(*rng.pick(&["^", "$", "[", "]"]));
+    }
+    let seq = long_seq(rng, len, &idx, &letters);
+    let pos = match term {
+        Some("[") => *rng.pick(&[0usize, 2, 2]),
+        Some("]") => *rng.pick(&[1usize, 2, 2]),
+        _ => rng.below(4),
+    };
+    let mut vars: VarMods = Vec::new();
+    let few = idx.len() <= 3;
+    for &l in &letters {
+        if idx.iter().enumerate().any(|(j, _)| letters[j % letters.len()] == l) {
+            let mut ms = vec![mass(rng)];
+            if few && rng.chance(1, 4) {
+                ms.push(mass(rng));
+            }
+            vars.push(((l as char).to_string(), ms));
+        }
+    }
+    if let Some(t) = term {
+        vars.push((t.to_string(), vec![mass(rng)]));
+    }
+    let mut statics: StaticMods = Vec::new();
+    if rng.chance(1, 3) {
+        // a static mod on a background letter, on the other terminus, or on one of the variable letters
+        let k = match rng.below(3) {
+            0 => "G".to_string(),
+            1 => (*rng.pick(&["^", "$"])).to_string(),
+            _ => (letters[0] as char).to_string(),
+        };
+        if !vars.iter().any(|(k2, _)| *k2 == k) || rng.chance(1, 2) {
+            statics.push((k, mass(rng)));
+        }
+    }
+    LongCase { pos, seq, max: 2 + rng.below(2), vars, statics }
+}
+
+fn gen_long(rng: &mut Rng, tier: Tier, emit: &mut dyn FnMut(Case)) {
+    let e: StaticMods = vec![];
+    // directed: M G*63 M K doubly oxidised (sites 0 and 64), and the other alignments, one by one
+    let g = |n: usize| "G".repeat(n);
+    let ox: &[f32] = &[15.9949];
+    let directed: Vec<(usize, String, VarMods)> = vec![
+        (2, format!("M{}MK", g(63)), vm(&[("M", ox)])),                       // residues 0 and 64
+        (3, format!("GM{}MK", g(63)), vm(&[("M", ox)])),                      // 1 and 65
+        (2, format!("{}M{}MK", g(63), g(63)), vm(&[("M", ox)])),              // 63 and 127
+        (2, format!("{}MGK", g(62)), vm(&[("M", ox), ("^", &[42.010565])])),  // residue 62 + N-terminus
+        (2, format!("{}MGK", g(62)), vm(&[("M", ox), ("[", &[42.010565])])),
+        (2, format!("{}MK", g(63)), vm(&[("M", ox), ("$", &[-17.026548])])),  // residue 63 + C-terminus
+        (2, format!("{}MK", g(63)), vm(&[("M", ox), ("]", &[-17.026548])])),
+        (2, format!("{}MMK", g(62)), vm(&[("M", ox), ("^", &[42.010565]), ("$", &[-17.026548])])),
+        (3, format!("M{}M{}MK", g(63), g(63)), vm(&[("M", ox)])),             // 0, 64, 128
+        (2, format!("K{}K{}", g(63), g(190)), vm(&[("K", &[8.0, 10.0])])),    // 0 and 64 in a 256-residue peptide
+        (2, format!("{}C{}C{}", g(200), g(63), g(20)), vm(&[("C", &[57.021465])])),   // 200 and 264
+        (2, format!("M{}MK", g(62)), vm(&[("M", ox)])),                       // 0 and 63: not aligned (control)
+    ];
+    for (pos, seq, vars) in &directed {
+        for max in [2usize, 3] {
+            emit_apply(emit, "apply:long-directed", *pos, seq, max, vars, &e);
+            emit_db(rng, emit, "db:long", seq, max, vars, &e);
+        }
+    }
+    let n = if tier == Tier::Quick { 120 } else { 6000 };
+    for k in 0..n {
+        let c = long_case(rng, k);
+        emit_apply(emit, "apply:long", c.pos, &c.seq, c.max, &c.vars, &c.statics);
+        if k % 3 == 0 {
+            emit_db(rng, emit, "db:long", &c.seq, c.max, &c.vars, &c.statics);
+        }
+    }
+}
+
+/// a dbforms case for a given peptide: bounds on / one ulp around the masses of its forms
+fn emit_db(rng: &mut Rng, emit: &mut dyn FnMut(Case), extra_tag: &'static str, seq: &str, max: usize, vars: &VarMods, statics: &StaticMods) -> bool {
+    let sh = shape(2, seq, vars, statics);
+    if seq.is_empty() || sh.static_overlap || binom_sum(sh.cands, max.max(1)) > 300 {
+        return false;
+    }
+    // keys are HashMap keys in Parameters: they cannot repeat
+    for (i, (k, _)) in vars.iter().enumerate() {
+        if vars[..i].iter().any(|(k2, _)| k2 == k) {
+            return false;
+        }
+    }
+    let masses: Vec<f32> = match run_apply(Position::Full, seq, max.max(1), vars, statics) {
+        Ok((_, forms)) => forms.iter().map(|p| p.monoisotopic).collect(),
+        Err(()) => vec![],
+    };
+    let pickm = |rng: &mut Rng| -> f32 {
+        if masses.is_empty() { 500.0 } else { *rng.pick(&masses) }
+    };
+    let (lo, hi, tag): (f32, f32, &'static str) = match rng.below(8) {
+        0 => (0.0, 1.0e6, "db:range-all"),
+        1 => { let m = pickm(rng); (m, 1.0e6, "db:lo=form-mass") }
+        2 => { let m = pickm(rng); (next_up(m), 1.0e6, "db:lo=form-mass+1ulp") }
+        3 => { let m = pickm(rng); (0.0, m, "db:hi=form-mass") }
+        4 => { let m = pickm(rng); (0.0, next_down(m), "db:hi=form-mass-1ulp") }
+        5 => { let a = pickm(rng); let b = pickm(rng); (a.min(b), a.max(b), "db:lo,hi=form-masses") }
+        6 => { let m = pickm(rng); (m, m, "db:lo=hi=form-mass") }
+        _ => { let m = pickm(rng); (m - 10.0, m + 10.0, "db:window") }
+    };
+    let inside = masses.iter().filter(|m| **m >= lo && **m <= hi).count();
+    emit(Case::new(req_db(seq, max, lo, hi, vars, statics))
+        .tag(tag)
+        .tag_if(!extra_tag.is_empty(), extra_tag)
+        .tag_if(sh.dup_cands, "db:duplicate-candidates")
+        .tag_if(inside == 0, "db:nothing-in-range")
+        .tag_if(inside == masses.len() && inside > 0, "db:everything-in-range")
+        .nontrivial(inside > 0 && inside < masses.len()));
+    true
 }
 
 pub fn gen(rng: &mut Rng, tier: Tier, emit: &mut dyn FnMut(Case)) {
@@ -682,4 +842,5 @@ pub fn gen(rng: &mut Rng, tier: Tier, emit: &mut dyn FnMut(Case)) {
     gen_small_scope(tier, emit);
     gen_random(rng, tier, emit);
     gen_db(rng, tier, emit);
+    gen_long(rng, tier, emit);
 }
